@@ -8,7 +8,10 @@ mod core3;
 mod core4;
 mod net;
 mod node;
+mod pnode;
 mod probe;
+mod relay;
+mod script;
 
 fn main() {
     let mut checks = vec![];
@@ -16,5 +19,6 @@ fn main() {
     checks.extend(core2::checks());
     checks.extend(core3::checks());
     checks.extend(core4::checks());
+    checks.extend(relay::checks());
     simkit::main_with(checks);
 }
